@@ -395,3 +395,5 @@ Definition multistream_trace (order : list bname) (chunks : list (list (bname * 
 Definition multistream_table_trace (order : list bname) (chunks : list (list (bname * Z))) : trace ids :=
   multistream_trace order (table_chunks chunks).
 Definition m_ms_table_is_one_chunk_stream : bool := true.   (* table_chunks above is how MultiStream.__init__ feeds a table *)
+Definition m_borders_compare_neighbouring_rows : bool := true.   (* `runs`: borders from adjacent keys, whatever codes the key column holds *)
+Definition m_with_ignored_added_is_functional : bool := true.     (* deriving g2 from g changes nothing in g: ctx_* are functions of (keepall, genome, extra) *)
